@@ -8,6 +8,7 @@ T = {
  "C03": ("stateful generation + quiescence invariant (liveness as safety at harness-made quiescent points)", "At every quiescent point of generated histories the status must be resting; the harness owns the schedule so quiescence is observable exactly.", "probe poll is a pure query (C19); rerun only after unhandled task failure (R10/R11 owned by C17)"),
  "C04": ("stateful generation past terminal + exhaustive 16x status request table on copies (state-diff oracle)", "Histories continued past the first terminal status with generated suffixes; every status requested on copies of reachable states; rejected => serialize() byte-identical.", "only 'rejected => no effect' and terminal finality are asserted"),
  "C05": ("lock-step differential (never-persisted twin vs persisted/restored twin) over generated histories", "Differential: two conductors receive the same calls, one is persisted/restored at generated points through a real JSON round trip; any observable difference is a violation.", "persistence = json round trip of serialize()"),
+ "C06": ("generated publish placements x schedules against a reference model of contexts with provenance (publish events and supersede sets)", "The user-visible context and rendered input of every offered task, and the output, are compared with a model that tracks which publish events reached each execution and which supersede which.", "scalar/list values; split-task executions matched to pending model contexts; R3 matched narrowly; R1 truncated"),
  "C07": ("directed fork-join generation + reference-model oracle (join instances per route) + unreachable-join oracle at rest", "Directed and general generated definitions x schedules; each join offer must consume a firing of its model instance; at rest a partial instance must have failed the workflow with UnreachableJoinError.", "join N < inbound outside cycles only; known finding R1 matched narrowly"),
  "C08": ("metamorphic relation over the set of linearisations (exhaustive DFS up to 720 orders, else 64)", "One definition with fixed per-task outcomes executed under every completion order (or 64): status, executed multiset, published deltas and non-concurrent output variables must agree.", "publishes are literals/result-derived; concurrent-writer exclusion is conservative; R3/R1 matched or excluded"),
  "C09": ("twin-run differential with a constructed drain window (paused twin vs plain twin with identical completion order)", "For generated definitions, outcome tables and pause positions the paused twin and the plain twin receive the same completion reports in the same order; no offers while pausing/paused, paused exactly at the last report, same held-back work, same final status/errors/executed/output.", "output compared on variables with <= 1 publish event; executed sets on success only; R1 orders excluded; R18 matched"),
